@@ -11,6 +11,8 @@
     * a call standing anywhere in a condition is replaced by the replacement text, the text before and after it is
       kept character for character (C13_call_in_context; `Reach`: the rewriter arrives at the call at the start of
       a token, not after a dot, having kept what it read)                                  (Cpf.Lemmas.Subst)
+    * renaming formals to arguments is simultaneous and token-wise (C13_rename_tokenwise, C13_tokens_partition);
+      one matched invocation expands as the call-in-context theorem says (C13_expand_one_in_context)
     * expansion and renaming change the text only at identifiers they are about: a condition without such an
       identifier is returned as it is, for every text (C13_uncalled_untouched, C13_rename_untouched)
   The general inlining statement (`C13_inline_full`) also needs "substituting a parenthesised expression
@@ -167,6 +169,44 @@ example : replaceCall ['a', '&', '&', '!', 'p', '(', 'm', ')'] ['p'] ['(', 'm', 
     exact Reach.ident (rw := callRw ['p'] ['(', 'm', ')'] ['(', 'B', ')']) false 'a' ['&', '&', '!', 'p', '(', 'm', ')']
       (p := ['&', '&', '!']) (m' := false) (r := ['p', '(', 'm', ')']) (by decide) (by decide) h3
   · intro x hx; simp [idents, identsAux] at hx
+
+open Cpf.Lemmas.Subst in
+/-- `ReplacePredicateVariables` for one matched invocation: the call, wherever it stands as a token of its own, is
+    replaced by the parenthesised body with the formals renamed to the arguments; the rest of the condition is kept. -/
+theorem C13_expand_one_in_context (inv : Invocation) (expr p post : List Char) (c : Char) (tl : List Char)
+    (hname : inv.name.toList = c :: tl) (hc : isLetter c = true) (htl : IdentChars tl)
+    (hm : (inv.matched.name == "") = false) (hlen : inv.matched.params.length = inv.args.length)
+    (hreach : Reach (callRw (c :: tl) ('(' :: (Go.Str.join [','] (inv.args.map (fun p => p.name.toList)) ++ [')']))
+                  ('(' :: renameIdentifiers inv.matched.body.toList
+                      ((inv.matched.params.map (fun p => p.name.toList)).zip (inv.args.map (fun p => p.name.toList))) ++ [')']))
+                false expr p false
+                (c :: tl ++ '(' :: (Go.Str.join [','] (inv.args.map (fun p => p.name.toList)) ++ [')']) ++ post))
+    (hpost : ∀ x ∈ idents post, ¬ (x.1 = c :: tl ∧ x.2.1 = false ∧
+        Go.Str.hasPrefix x.2.2 ('(' :: (Go.Str.join [','] (inv.args.map (fun p => p.name.toList)) ++ [')'])) = true)) :
+    expandOne expr inv
+      = p ++ ('(' :: renameIdentifiers inv.matched.body.toList
+              ((inv.matched.params.map (fun p => p.name.toList)).zip (inv.args.map (fun p => p.name.toList))) ++ [')']) ++ post := by
+  unfold expandOne
+  simp only [hm, hlen, bne_self_eq_false, Bool.or_self, Bool.false_eq_true, if_false, hname]
+  exact C13_call_in_context c tl _ post p expr _ hc htl hreach hpost
+
+open Cpf.Lemmas.Subst in
+/-- **C13 (renaming is simultaneous, token by token)**: the body with formals renamed is the body's tokens, each
+    mapped on its own — an identifier that is a formal and does not follow a dot becomes its argument; other
+    identifiers, member names, string literals, numbers and punctuation stay. A replacement is never renamed again
+    (`isIn(m, c)` called as `isIn(c, k)`: `m ↦ c` and `c ↦ k` at once). -/
+theorem C13_rename_tokenwise (s : List Char) (ren : List (List Char × List Char)) :
+    renameIdentifiers s ren = (toks s).flatMap (renTok ren) :=
+  renameIdentifiers_tokenwise s ren
+
+open Cpf.Lemmas.Subst in
+/-- the tokens are the text: nothing lost, nothing added -/
+theorem C13_tokens_partition (s : List Char) : (toks s).flatMap Tok.text = s := toks_flatten s
+
+/-- Non-vacuity / the case a sequential renaming gets wrong: formals `m, c`, arguments `c, k`. -/
+example : String.ofList (renameIdentifiers "m.getName()==c.getName()&&\"m c\"!=x.m".toList
+    [("m".toList, "c".toList), ("c".toList, "k".toList)]) = "c.getName()==k.getName()&&\"m c\"!=x.m" := by
+  decide
 
 /-- The general statement (not proved; see the header). -/
 def C13_inline_full : Prop :=
